@@ -3,6 +3,7 @@ package main
 import (
 	"fmt"
 	"go/types"
+	"math"
 	"strings"
 )
 
@@ -114,7 +115,17 @@ func init() {
 			i := c.args[0].(Iface)
 			c.Return(XType{T: i.T})
 		},
-		// vhPick(name, n) int : a concrete value in [0,n), one forked state per value (no solver involved)
+		// vhConstFloatOK(f float64) bool : finite and not negative zero (values a typed constant can take)
+	"vhConstFloatOK": func(c *CallCtx) {
+		f := c.args[0].(*Term)
+		if f.Const {
+			v := f64OfConst(f)
+			c.Return(BoolC(v == v && v-v == 0 && !(v == 0 && math.Signbit(v))))
+			return
+		}
+		c.Return(And(Not(FPIsNaN(f)), Not(app(BoolSort, "fp.isInfinite", f)), Not(And(app(BoolSort, "fp.isZero", f), app(BoolSort, "fp.isNegative", f)))))
+	},
+	// vhPick(name, n) int : a concrete value in [0,n), one forked state per value (no solver involved)
 	"vhPick": func(c *CallCtx) {
 		n := int(c.args[1].(*Term).U)
 		name := strArg(c.args[0])
@@ -138,6 +149,9 @@ func init() {
 
 // sameFloat: both NaN, or identical bit patterns (so -0 != +0).
 func sameFloat(a, b *Term) *Term {
+	if a.S == b.S {
+		return True
+	}
 	return Or(And(FPIsNaN(a), FPIsNaN(b)), And(Not(FPIsNaN(a)), Not(FPIsNaN(b)), Eq(FPToBits(a), FPToBits(b))))
 }
 
